@@ -100,7 +100,7 @@ func admitSweep(c *Ctx, n int, k AdmitKnobs, full, decisive string, extra func(a
 			if !plainAllowed(g) {
 				c.Nontrivial(a.opJSON())
 			}
-			if extra != nil {
+			if extra != nil && !g.ClockHit {
 				extra(a, g)
 			}
 			cases = append(cases, a)
@@ -134,6 +134,10 @@ func admitSweep(c *Ctx, n int, k AdmitKnobs, full, decisive string, extra func(a
 					if fresh.Panic != "" || hist[j].Panic != "" {
 						continue
 					}
+					if fresh.ClockHit || hist[j].ClockHit {
+						c.Tag("skipped.wallClock") // the machine was too slow for the controller's real one-second budget
+						continue
+					}
 					if d := diffAdmit(fresh, hist[j], strings.ReplaceAll(full, "timeout", "")); len(d) > 0 {
 						c.Violate(Finding{Desc: fmt.Sprintf("the response depends on earlier requests to the same controller (request %d of a group of %d, pass %d): %s", j+1, len(group), pass+1, strings.Join(d, "; ")),
 							Key: "history:" + strings.SplitN(d[0], ":", 2)[0], Input: ops[g0+j], Go: J{"afterEarlierRequests": hist[j], "alone": fresh}})
@@ -148,6 +152,10 @@ func admitSweep(c *Ctx, n int, k AdmitKnobs, full, decisive string, extra func(a
 				continue
 			}
 			if gos[i].Panic != "" {
+				continue
+			}
+			if gos[i].ClockHit {
+				c.Tag("skipped.wallClock")
 				continue
 			}
 			l := leanAdmit(o)
